@@ -27,7 +27,7 @@ for tag in sorted(os.listdir(os.path.join(V, 'seeded'))):
     _n[r] += 1
     if 'missed' in mm.get('first_run', '').lower():
         _c[r] += 1
-summary = """%d rounds, %d changes (one per property and round), all confirmed and all reported now.
+summary = """%d rounds, %d changes (one per property and round; the last round covers ten properties), all confirmed and all reported now.
 %d of them were missed by the property's check when first run (per round: %s);
 the share did not fall from round to round because every sub-agent was told what the earlier ones
 had delivered for its property and had to find a different mechanism, site and trigger - the later
